@@ -780,6 +780,17 @@ class ProjectHistory:
             except Exception as e:  # noqa: BLE001
                 raise Violation("runs.earlier_loadable", f"load_result({name!r}): {type(e).__name__}: {str(e)[:200]}") from e
             check(Path(r.source_path).parent == self.results_dir / name, "runs.earlier_loadable", lambda: f"load_result({name!r}) loaded {r.source_path}")
+            # what was loaded is the caller's object: editing it in memory does not change what the next load of the same run gives
+            free = [p for p in r.optimized_parameters.all() if p.expression is None]
+            if free:
+                old_value = float(free[0].value)
+                free[0].value = old_value * 10.0 + 1.0
+                with quiet():
+                    again = self.project.load_result(name)
+                got = float(again.optimized_parameters.get(free[0].label).value)
+                check(got == old_value or abs(got - old_value) <= 1e-12 * abs(old_value), "runs.second_load_returns_the_edited_object",
+                      lambda: f"load_result({name!r}) a second time: {free[0].label} = {got!r}, the files hold {old_value!r}")
+                self.tags.add("loaded-twice-after-editing-the-first-object")
         self.check_runs_intact()
 
     def nontrivial(self) -> bool:
